@@ -337,7 +337,7 @@ func c06Run(c *Ctx) {
 func init() {
 	register(&CheckDef{
 		ID:   "C06",
-		Rule: "programs: 70 expression faults and 9 statement faults (undefined name, redeclaration, type mismatch for every operator family, zero divisor, negative shift, bad index read/write, missing property, property of non-object, non-callable, arity, every built-in with a bad argument) planted at 45 syntactic positions (top level, nested block, if condition/then/else, while condition/body, infinite while/for body, for initializer/condition/increment/body, function body, nested function, function called from a loop, call argument first/last, callee, array/object literal element, index, initializer, return operand, either side of ||, &&, binary, unary, three assignment forms, ...) x 3 layouts; after the fault each program has tagged prints, ইনপুট(prompt) calls with stdin available, and enclosing loops that end only through a থামো placed after the fault. In-process runs record the hook event order (stdout / diagnostic / built-in call / stdin read) and an X-never-after-Y monitor checks nothing follows the first runtime diagnostic; a step budget derived from the model decides termination; the binary is run with separate pipes (model comparison) and with one merged pipe (ordering). Plus stray signals, fault-free controls, seeded random faulty programs. Non-trivial = distinct program whose planted fault was reached and decided.",
+		Rule: "programs: 80 expression faults and 9 statement faults (incl. ones whose diagnostic quotes text containing a per-cent sign; undefined name, redeclaration, type mismatch for every operator family, zero divisor, negative shift, bad index read/write, missing property, property of non-object, non-callable, arity, every built-in with a bad argument) planted at 45 syntactic positions (top level, nested block, if condition/then/else, while condition/body, infinite while/for body, for initializer/condition/increment/body, function body, nested function, function called from a loop, call argument first/last, callee, array/object literal element, index, initializer, return operand, either side of ||, &&, binary, unary, three assignment forms, ...) x 3 layouts; after the fault each program has tagged prints, ইনপুট(prompt) calls with stdin available, and enclosing loops that end only through a থামো placed after the fault. In-process runs record the hook event order (stdout / diagnostic / built-in call / stdin read) and an X-never-after-Y monitor checks nothing follows the first runtime diagnostic; a step budget derived from the model decides termination; the binary is run with separate pipes (model comparison) and with one merged pipe (ordering). Plus stray signals, fault-free controls, seeded random faulty programs. Non-trivial = distinct program whose planted fault was reached and decided.",
 		Assumptions: []string{"the faulting expression sits on one source line; siblings of the faulting operand are pure wherever the detection order is not fixed by the properties"},
 		Run:         c06Run,
 		Judge:       c06Judge,
